@@ -495,6 +495,8 @@ func main() {
 	files = append(files, genPathShape(byDir)...)
 	files = append(files, genSliceShape(byDir)...)
 	files = append(files, genFieldShape(byDir)...)
+	files = append(files, genScanProgs(byDir)...)
+	files = append(files, genFilterPure(byDir)...)
 	files = append(files, genUtilShape(byDir)...)
 	files = append(files, genVmShape(repo, byDir)...)
 	changed := []string{}
